@@ -806,6 +806,12 @@ Proof.
   split; [|split]; intros; split; rewrite ?events_seed_first, ?samples_seed_first; reflexivity.
 Qed.
 
+(* the same for a run whose every later decision is an arbitrary function of the history: as soon as
+   the first instruction is the seed, nothing depends on the ambient generator state *)
+Theorem seeded_repeatable_adaptive : forall D fuel s g1 g2,
+  D [] = Some (OSeed s) -> arun fuel D (init g1) [] = arun fuel D (init g2) [].
+Proof. intros D [|f] s g1 g2 H; simpl; [reflexivity|]. rewrite H. reflexivity. Qed.
+
 (* the trace of a seeded run does not depend on the clock either; that of an unseeded run depends on it only *)
 Theorem seeded_ignores_clock : forall s t1 t2 m ss g,
   events (std_ops (Some s) t1 m ss) (init g) = events (std_ops (Some s) t2 m ss) (init g).
